@@ -120,6 +120,6 @@ def facts_dir(config="default", repo=None, quiet=False):
             # prune old cache entries (keep 4 most recent trees)
             base = os.path.join(CACHE, "facts")
             ents = sorted((os.path.getmtime(os.path.join(base, e)), e) for e in os.listdir(base))
-            for _, e in ents[:-12]:
+            for _, e in ents[:-24]:
                 shutil.rmtree(os.path.join(base, e), ignore_errors=True)
         return out, info
